@@ -35,8 +35,78 @@ META = dict(
 LABELS = [("A", "B"), ("Xe", "O"), ("Si", "Si")]
 
 
-def api_case(nr, npots, derivs, route):
-  res = new_result("api nr=%d npots=%d derivs=%s route=%s" % (nr, npots, derivs, route))
+class IntCore(object):
+  """a potential written by a user as `if r < thr: return 0` (a python int, not a float) and a float elsewhere"""
+
+  def __init__(self, u, du, thr):
+    self.u, self.du, self.thr = u, du, thr
+
+  def __call__(self, r):
+    if r < self.thr:
+      return 0
+    return self.u(r)
+
+  def deriv(self, r):
+    if r < self.thr:
+      return 0
+    return self.du(r)
+
+
+def replay_intcore(nr, npots, derivs, labels, w, route):
+  """concrete: potential 0 returns the int 0 below the witness threshold"""
+  import atsim.potentials as ap
+  from atsim.potentials import Potential
+  from atsim.potentials.pair_tabulation import DLPoly_PairTabulation
+  cutoff = common._cutoff_from(w)
+  try:
+    thr = float(w.get("thr"))
+  except Exception:  # noqa
+    thr = 1.5 * cutoff / (nr - 4)
+  gen = common.gen_functions(npots)
+  mf = w.get("#functions", {}) if isinstance(w, dict) else {}
+  last = None
+  for what in ("model functions", "generic functions"):
+    fs = []
+    for p in range(npots):
+      f, d = gen[p]
+      if what == "model functions":
+        if ("U%d" % p) not in mf:
+          fs = None
+          break
+        f = mf["U%d" % p]
+        d = mf.get("d_U%d" % p) or common._stencil(f, 1e-6)
+      fs.append((f, d))
+    if fs is None:
+      continue
+    pots, spec = [], []
+    for p in range(npots):
+      f, d = fs[p]
+      a, b = labels[p]
+      if p == 0:
+        pots.append(Potential(a, b, IntCore(f, d, thr)))
+        spec.append((a, b, (lambda r, f=f: 0.0 if r < thr else f(r)), (lambda r, d=d: 0.0 if r < thr else d(r))))
+      else:
+        pots.append(Potential(a, b, common._WithDeriv(f, d) if derivs[p] else f))
+        spec.append((a, b, f, d if derivs[p] else common._stencil(f, 1e-6)))
+    out = io.StringIO()
+    try:
+      if route == "class":
+        DLPoly_PairTabulation(pots, cutoff, nr).write(out)
+      else:
+        ap.writePotentials("DL_POLY", pots, cutoff, nr, out)
+      bad = common.compare_dlpoly(out.getvalue(), spec, cutoff, nr)
+    except Exception as e:  # noqa
+      bad = ["writer raised %s: %s" % (type(e).__name__, e)]
+    rec = dict(kind="pair_api_intcore", target="DL_POLY", nr=nr, npots=npots, derivs=list(derivs), labels=labels, cutoff=cutoff, thr=thr, route=route,
+               functions=what, mismatches=bad[:10])
+    last = (bool(bad), ("[%s; potential 0 returns the int 0 for r < %r] " % (what, thr)) + ("; ".join(bad[:4]) or "output agrees with the specification at cutoff=%r" % cutoff), rec)
+    if bad:
+      return last
+  return last
+
+
+def api_case(nr, npots, derivs, route, intcore=False):
+  res = new_result("api nr=%d npots=%d derivs=%s route=%s%s" % (nr, npots, derivs, route, " int-valued core" if intcore else ""))
   import atsim.potentials as ap
   from atsim.potentials import Potential
   from atsim.potentials.pair_tabulation import DLPoly_PairTabulation
@@ -46,11 +116,20 @@ def api_case(nr, npots, derivs, route):
     cutoff = sym("cutoff")
     assume(cutoff > 0)
     pots = [Potential(labels[p][0], labels[p][1], uf("U%d" % p, deriv=derivs[p])) for p in range(npots)]
+    if intcore:
+      thr = sym("thr")
+      assume(thr > 0)
+      u0 = uf("U0", deriv=True)
+      pots[0] = Potential(labels[0][0], labels[0][1], IntCore(u0, u0.deriv, thr))
     out = Sink()
-    if route == "class":
-      DLPoly_PairTabulation(pots, cutoff, nr).write(out)
-    else:
-      ap.writePotentials("DL_POLY", pots, cutoff, nr, out)
+    core.INT_TAGS = intcore
+    try:
+      if route == "class":
+        DLPoly_PairTabulation(pots, cutoff, nr).write(out)
+      else:
+        ap.writePotentials("DL_POLY", pots, cutoff, nr, out)
+    finally:
+      core.INT_TAGS = False
     return out.getvalue()
 
   def build(path, wrong=False):
@@ -77,6 +156,11 @@ def api_case(nr, npots, derivs, route):
       for k in range(nr):
         kk = k + 1 + (1 if wrong else 0)
         r = rv(kk) * delpot
+        if intcore and p == 0:
+          inside = r < z3.Real("thr")
+          vcs.append(VC("p%d.E%d" % (p, k + 1), eq_formula(T(path, blk["energies"][k]), z3.If(inside, rv(0), U(r))), info=dict(key="E-int-valued-core")))
+          vcs.append(VC("p%d.G%d" % (p, k + 1), eq_formula(T(path, blk["forces"][k]), z3.If(inside, rv(0), -(r * dU(r)))), info=dict(key="G-int-valued-core")))
+          continue
         vcs.append(VC("p%d.E%d" % (p, k + 1), eq_formula(T(path, blk["energies"][k]), U(r)), info=dict(key="E")))
         if derivs[p]:
           want = -(r * dU(r))
@@ -88,6 +172,8 @@ def api_case(nr, npots, derivs, route):
     return vcs
 
   def replay(v, w, path, structural):
+    if intcore:
+      return replay_intcore(nr, npots, derivs, labels, w, route)
     return common.replay_pair_table("DL_POLY", nr, npots, derivs, labels, w, route)
 
   explore_and_check(res, fn, build, replay=replay, negative=lambda p: build(p, wrong=True))
@@ -309,6 +395,10 @@ def cases(tier, seed=0):
             continue
           cs.append(Case("api nr=%d n=%d d=%s %s" % (nr, npots, "".join("ad"[not d] for d in derivs), route),
                          api_case, nr=nr, npots=npots, derivs=derivs, route=route))
+  # potentials that return python ints over part of their range (`return 0` inside a cut-off core)
+  for npots, route in ((1, "class"), (2, "writePotentials")) if tier == "quick" else ((1, "class"), (1, "writePotentials"), (2, "class"), (2, "writePotentials")):
+    for nr in ((8,) if tier == "quick" else (8, 12)):
+      cs.append(Case("api int-valued core nr=%d n=%d %s" % (nr, npots, route), api_case, nr=nr, npots=npots, derivs=(True,) * npots, route=route, intcore=True))
   for npots in (1, 2):
     cs.append(Case("rejection api n=%d" % npots, rejection_case, npots=npots, via="api"))
   cs.append(Case("rejection factory", rejection_case, npots=1, via="factory"))
